@@ -232,6 +232,37 @@ def unsubscribe_shape():
     return 'bool', cbool(ok)
 
 
+def unsubscribe_reaches_specific_loop():
+    """a module-wide unsubscribe ALWAYS runs the loop over the 'more specific' events (`k.startswith(eventname + ':')`),
+    whether or not the bare event has an entry in the table: the method contains no return / raise / break / continue /
+    try / while, exactly one loop, over self._subscriptions.items(), which is either a top-level statement or the whole
+    body of a top-level `if ':' not in eventname:` without else, and no earlier top-level statement can leave the method
+    or rebind the table / the event name; the loop discards the connection from every set whose key starts with the
+    event name and a colon (no further condition)"""
+    f = _method('unsubscribe')
+    st = _stmts(f)
+    ok = not any(walk_type(f, t) for t in (ast.Return, ast.Raise, ast.Break, ast.Continue, ast.Try, ast.While,
+                                           ast.Yield, ast.Assert, ast.With, ast.Delete))
+    loops = walk_type(f, ast.For)
+    ok = ok and len(loops) == 1 and _norm(loops[0].iter) == 'self._subscriptions.items()' and not loops[0].orelse \
+        and _norm(loops[0].target) in ('k,v', '(k,v)')
+    if ok:
+        loop = loops[0]
+        pos = None
+        for i, x in enumerate(st):
+            if x is loop or (isinstance(x, ast.If) and _norm(x.test).replace('"', "'") == "':'notineventname"
+                             and not x.orelse and len(x.body) == 1 and x.body[0] is loop):
+                pos = i
+        ok = pos is not None
+        # statements before the loop: only the (guarded) discard from the set of the event itself
+        for x in st[:pos] if ok else []:
+            ok = ok and _norm(x) in ('ifeventnameinself._subscriptions:self._subscriptions[eventname].discard(conn)',
+                                     'self._subscriptions.get(eventname,set()).discard(conn)')
+        ok = ok and [_norm(x).replace('"', "'") for x in loop.body] in (
+            ["ifk.startswith(f'{eventname}:'):v.discard(conn)"], ["ifk.startswith(eventname+':'):v.discard(conn)"])
+    return 'bool', cbool(ok)
+
+
 def deactivate_shape():
     f = _method('handle_deactivate')
     st = _stmts(f)
@@ -288,7 +319,8 @@ def handler_replies_after_dispatch():
 FACTS = [EVENTREPLY, ENABLEEVENTSREPLY, DISABLEEVENTSREPLY, IDENTREQUEST, request_under_dispatcher_lock,
          announce_under_update_lock, announce_update_shape, broadcast_listeners_shape,
          activate_registers_before_snapshot, snapshot_under_module_lock, broadcast_takes_no_dispatcher_lock,
-         subscribe_shape, subscription_entries_never_removed, unsubscribe_shape, deactivate_shape, reset_shape, handler_replies_after_dispatch]
+         subscribe_shape, subscription_entries_never_removed, unsubscribe_shape, unsubscribe_reaches_specific_loop,
+         deactivate_shape, reset_shape, handler_replies_after_dispatch]
 
 FINGERPRINTS = {
     'make_update': lambda: find_func(parse(FD), 'make_update'),
